@@ -266,6 +266,35 @@ def _const_truth(e) -> Optional[bool]:
     return None
 
 
+_MODULE_NAMES: Dict[int, Set[str]] = {}
+
+
+def _module_names(mod) -> Set[str]:
+    """names bound at module level (assignments, definitions, imports; `from x import *` makes everything known), plus builtins"""
+    got = _MODULE_NAMES.get(id(mod))
+    if got is None:
+        import builtins
+        got = set(dir(builtins)) | {'__name__', '__file__', '__doc__'}
+        for st in ast.walk(mod.tree):
+            if isinstance(st, (ast.FunctionDef, ast.AsyncFunctionDef, ast.ClassDef)):
+                continue
+        for st in mod.tree.body:
+            for x in ast.walk(st):
+                if isinstance(x, (ast.FunctionDef, ast.AsyncFunctionDef, ast.ClassDef)):
+                    got.add(x.name)
+                elif isinstance(x, ast.alias):
+                    if x.name == '*':
+                        got.add('*')
+                    got.add((x.asname or x.name).split('.')[0])
+            if not isinstance(st, (ast.FunctionDef, ast.AsyncFunctionDef, ast.ClassDef)):
+                for x in ast.walk(st):
+                    if isinstance(x, ast.Name) and isinstance(x.ctx, ast.Store):
+                        got.add(x.id)
+        _MODULE_NAMES[id(mod)] = got
+    out = set(got)
+    return out
+
+
 def X1(ctx: Ctx) -> RuleResult:
     r = RuleResult('X1', 'definite assignment: no local is read on a path that never assigned it (UnboundLocalError)')
     n = 0
@@ -281,6 +310,24 @@ def X1(ctx: Ctx) -> RuleResult:
                 r.fail(f'{fi.qualname}:{name}', f"local '{name}' may be read before assignment (some path reaches line {line} without assigning it): UnboundLocalError", f'{fi.module.relpath}:{line}')
         else:
             r.ok(f'{fi.qualname}')
+        # names that are bound nowhere: not in this function (or an enclosing / nested scope of it), not in the module, not built in
+        bound = _module_names(fi.module)
+        for x in ast.walk(fi.node):
+            if isinstance(x, ast.Name) and isinstance(x.ctx, (ast.Store, ast.Del)):
+                bound.add(x.id)
+            elif isinstance(x, ast.arg):
+                bound.add(x.arg)
+            elif isinstance(x, (ast.FunctionDef, ast.ClassDef)):
+                bound.add(x.name)
+            elif isinstance(x, ast.ExceptHandler) and x.name:
+                bound.add(x.name)
+            elif isinstance(x, ast.alias):
+                bound.add((x.asname or x.name).split('.')[0])
+            elif isinstance(x, (ast.Global, ast.Nonlocal)):
+                bound.update(x.names)
+        for x in (y for st in fi.node.body for y in ast.walk(st)):    # decorators and annotations belong to the enclosing scope
+            if isinstance(x, ast.Name) and isinstance(x.ctx, ast.Load) and x.id not in bound and '*' not in bound:
+                r.fail(f'{fi.qualname}:{x.id}:unbound', f"name '{x.id}' is read but bound nowhere (not in the function, the module or the builtins): NameError", f'{fi.module.relpath}:{x.lineno}')
     r.facts = r.facts[:40]
     r.floor('functions', n, 500)
     # fixture: the rule must still fire on the canonical shape
@@ -290,6 +337,57 @@ def X1(ctx: Ctx) -> RuleResult:
     fx2 = ast.parse('def f(a):\n    if a:\n        n = 1\n        return n\n    return 0\n').body[0]
     if _DA(fx2).run():
         raise AnalysisError('X1', 'embedded negative fixture fires')
+    return r
+
+
+# ====================================================================== X12
+def _can_fall(body: List[ast.stmt]) -> bool:
+    """can control reach the end of this statement list (and the function return None implicitly)?"""
+    for st in body:
+        if isinstance(st, (ast.Return, ast.Raise)):
+            return False
+        if isinstance(st, ast.If):
+            if not _can_fall(st.body) and st.orelse and not _can_fall(st.orelse):
+                return False
+        elif isinstance(st, ast.While):
+            if isinstance(st.test, ast.Constant) and st.test.value and not any(isinstance(x, ast.Break) for x in ast.walk(st)):
+                return False
+        elif isinstance(st, ast.Try):
+            if st.finalbody and not _can_fall(st.finalbody):
+                return False
+            if not _can_fall(st.body + st.orelse) and not any(_can_fall(h.body) for h in st.handlers):
+                return False
+        elif isinstance(st, ast.With):
+            if not _can_fall(st.body):
+                return False
+        elif isinstance(st, ast.Assert) and isinstance(st.test, ast.Constant) and not st.test.value:
+            return False
+        elif isinstance(st, ast.Match):
+            if any(isinstance(c.pattern, ast.MatchAs) and c.pattern.pattern is None and c.guard is None for c in st.cases) and not any(_can_fall(c.body) for c in st.cases):
+                return False
+    return True
+
+
+def X12(ctx: Ctx) -> RuleResult:
+    r = RuleResult('X12', 'declared results: a function or method whose return annotation is not None / Optional never reaches the end of its body without a return or raise (an implicit None where an AST node, a table or a truth value is promised)')
+    n = 0
+    for fi in ctx.model.all_functions():
+        node = fi.node
+        if node.returns is None:
+            continue
+        rt = ast.unparse(node.returns)
+        if 'None' in rt or rt.startswith(('Optional', 'Iterator', 'Iterable', 'Generator', "'Optional", "'Iterator")):
+            continue
+        if any(isinstance(x, (ast.Yield, ast.YieldFrom)) for x in ast.walk(node)):
+            continue
+        n += 1
+        if _can_fall(node.body):
+            r.fail(f'{fi.qualname}:falls-off', f'{fi.qualname} is declared to return {rt} but a path reaches the end of its body: the caller receives None', fi.where)
+    r.counts['functions with a declared result'] = n
+    r.floor('functions with a declared result', n, 400)
+    fx = ast.parse('def f(a) -> int:\n    if a:\n        return 1\n').body[0]
+    if not _can_fall(fx.body):
+        raise AnalysisError('X12', 'embedded positive fixture no longer fires')
     return r
 
 
@@ -1192,7 +1290,7 @@ def _is_mapping_expr(ctx: Ctx, fi: FunctionInfo, e: ast.expr) -> bool:
     return False
 
 
-RULES = {'X1': X1, 'X2': X2, 'X3a': X3a, 'X3b': X3b, 'X4': X4, 'X5': X5, 'X5r': X5r, 'X6': X6, 'X8': X8, 'X9': X9, 'X10': X10}
+RULES = {'X1': X1, 'X2': X2, 'X3a': X3a, 'X3b': X3b, 'X4': X4, 'X5': X5, 'X5r': X5r, 'X6': X6, 'X8': X8, 'X9': X9, 'X10': X10, 'X12': X12}
 
 
 # ====================================================================== X3c
